@@ -51,7 +51,10 @@ def code_source():
     only = ObjectType("OnlyImpl", [Field("id", NonNullType(ID)), Field("w", Int, resolver=_default_b)], interfaces=[node], description="no field refers to this type")
     loose = EnumType("Loose", [EnumValue("L", 0)], description="nothing refers to this type")
     tag = Directive("tag", ["FIELD_DEFINITION"], args=[Argument("v", Int, default_value=1), Argument("w", Int, default_value=None)], description="a tag")
-    schema = Schema(q, subscription_type=sub, types=[a, b, u, node, color, inp, only, loose], directives=[tag])
+    # a directive whose arguments are of USER types (input object, enum): they are references that every transform has to re-point as well
+    flag = Directive("flag", ["FIELD", "FIELD_DEFINITION"], args=[Argument("flag_options", ListType(NonNullType(inp)), default_value=[{"f": 2, "sv": "x"}]), Argument("shade", color)],
+                     description="a flag")
+    schema = Schema(q, subscription_type=sub, types=[a, b, u, node, color, inp, only, loose], directives=[tag, flag])
     schema.default_resolver = _schema_default
     return schema
 
@@ -153,7 +156,7 @@ def attrs(schema, rename=lambda x: x):
             continue
         out[("@" + name,)] = ("directive", tuple(d.locations), d.description)
         for a in d.arguments:
-            out[("@" + name, a.name)] = ("arg", S.tstr(a.type), a.description, a.python_name, ("d", a.default_value) if a.has_default_value else None)
+            out[("@" + name, rename(a.name))] = ("arg", S.tstr(a.type), a.description, a.python_name, ("d", a.default_value) if a.has_default_value else None)
     return out
 
 
